@@ -1,18 +1,18 @@
 SPECIFICATION Spec
 CONSTANTS
   Configs <- TheConfigs
-  ScriptLen = 0
+  ScriptLen = 1
   LongScripts = TRUE
   Ops <- AllOps
-  Formats = {"opl"}
+  Formats = {"pbf"}
   Comps = {"plain", "gzip", "bzip2"}
-  Pools = {FALSE, TRUE}
+  Pools = {TRUE}
   Bounds = {2}
-  Caps = {1}
+  Caps = {2}
   MaxAt = 9
   FaultKinds <- AllKinds
   FdFix = TRUE
   GenFormats = {"xml"}
   GenComps = {"plain"}
-  GenScriptLen = 0
+  GenScriptLen = 1
 INVARIANTS TypeOK LogAllowed CompleteOrThrows NeverLost NoSpuriousException RefusesAfterException FutureReadOnce NoThreadLeft NoFdLeft QueueBound
